@@ -93,6 +93,7 @@ STMTS = {
     'I7': ('import', 'os.path', True, 'path'),         # alias equal to the imported name (redundant but legal)
     'I8': ('import', 'json', False, 'json'),
     'N1': ('include', 'c03inc.gin'),
+    'B11': ('bind', '', 'c03.f', 'z', "'own'"),     # the parameter the included file sets as well
 }
 Q_KEYS = ['B1', 'B2', 'B3', 'B5', 'B6', 'M1', 'M2', 'M3', 'I3', 'I4', 'N1']
 
@@ -312,6 +313,18 @@ def check_list(keys, tier, res):
   stmts = [STMTS[k] for k in keys]
   model = [model_stmt(s) for s in stmts]
   canon_cfg = None
+
+  def summary():
+    cs = '\n'.join(l for l in gin.config_str().splitlines() if not l.startswith(('import ', 'from ')))
+    return cs + '\n' + repr(sorted({(i.module, i.is_from, i.alias or '') for i in cfg._IMPORTS}))
+  # reference: the statements applied one at a time, each from a text of its own
+  harness.hard_reset()
+  try:
+    for st in stmts:
+      gin.parse_config(next(iter(layouts([st], tier)))[1])
+    one_by_one = summary()
+  except Exception as e:  # pylint: disable=broad-except
+    one_by_one = 'raised %r' % (e,)
   for lname, text, tags in layouts(stmts, tier):
     desc = [list(keys), lname]
     res.case(text, lname != 'base')
@@ -339,6 +352,11 @@ def check_list(keys, tier, res):
       cs = 'raised %r' % (e,)
     if canon_cfg is None:
       canon_cfg = cs
+      whole = cs if cs.startswith('raised') else summary()      # (imports compared as a set here)
+      if whole != one_by_one and not one_by_one.startswith('raised'):
+        res.violation('stream_differs', 'statements %r: the text as a whole gives config\n%s\n-- the same statements '
+                      'applied one at a time give\n%s\n-- text:\n%s' % (keys, whole, one_by_one, text), desc)
+        return
       if cs.startswith('raised'):
         res.violation('base_layout_fails', 'statements %r: parse_config of the base layout %s:\n%s' % (keys, cs, text),
                       desc)
@@ -473,7 +491,8 @@ def gen_lists(tier):
   if tier == 'quick':
     # a few length-3 lists with two runs / run followed by other statements
     for t in [('B1', 'B5', 'B2'), ('B2', 'B6', 'B7'), ('B1', 'B5', 'M1'), ('M1', 'B2', 'B6'), ('I4', 'B1', 'B5'),
-              ('B1', 'B5', 'N1'), ('B2', 'B6', 'B1'), ('B1', 'B2', 'B6')]:
+              ('B1', 'B5', 'N1'), ('B2', 'B6', 'B1'), ('B1', 'B2', 'B6'), ('N1', 'B11', 'N1'), ('B11', 'N1', 'B11'),
+              ('N1', 'N1', 'B11'), ('M1', 'N1', 'M2')]:
       yield list(t)
   else:
     for t in [('B1', 'B5', 'B2', 'B6'), ('B2', 'B6', 'B7', 'B1'), ('M1', 'B1', 'B5', 'N1'), ('I5', 'B2', 'B6', 'B7')]:
